@@ -31,6 +31,9 @@ def content(kind: int, idx: int, size: int) -> bytes:
     if kind == 3:
         return (b'ABCDEFGH' * (size // 8 + 1))[:size]
     seed = 7 if kind == 1 else 11 + idx * 31
+    if size > 1 << 16:
+        import random
+        return random.Random(seed).randbytes(size)
     out = bytearray()
     x = seed
     for _ in range(size):
